@@ -907,6 +907,13 @@ func (e *Env) fileSizeCovers(c *schema.Ctx) {
 			}
 			// raised to X+1, and only where X >= end is known
 			nGrow++
+			// … or through a helper that returns its first argument, or its second plus one when
+			// the second is not below the first
+			if call, isCall := as.Rhs[0].(*ast.CallExpr); isCall && as.Tok == token.ASSIGN && len(call.Args) == 2 {
+				if aid, ok := call.Args[0].(*ast.Ident); ok && info.Uses[aid] == endObj && e.isExtendPast(c, pkg, call) {
+					return true
+				}
+			}
 			r := canonText(c.ExprStr(as.Rhs[0]))
 			if as.Tok != token.ASSIGN || !strings.HasSuffix(r, " + 1") {
 				okGrow = false
@@ -1319,4 +1326,48 @@ func (e *Env) isTextLoop(info *types.Info, n ast.Node) bool {
 		return true
 	})
 	return appends && !moves
+}
+
+// isExtendPast: the callee is a same-package function h(a, b int) int whose every return is
+// either a — reachable only where b < a — or b + 1.
+func (e *Env) isExtendPast(c *schema.Ctx, pkg *packages.Package, call *ast.CallExpr) bool {
+	fn := c.Callee(call)
+	if fn == nil || fn.Pkg() != pkg.Types {
+		return false
+	}
+	for _, h := range load.AllFuncDecls(pkg) {
+		if c.Info.Defs[h.Name] != types.Object(fn) || h.Body == nil || h.Recv != nil {
+			continue
+		}
+		var ps []string
+		for _, p := range h.Type.Params.List {
+			for _, nm := range p.Names {
+				ps = append(ps, nm.Name)
+			}
+		}
+		if len(ps) != 2 {
+			return false
+		}
+		rets, ok := returnsOf(c, h)
+		if !ok || len(rets) == 0 {
+			return false
+		}
+		for _, r := range rets {
+			if len(r.results) != 1 {
+				return false
+			}
+			switch canonText(r.results[0]) {
+			case ps[1] + " + 1":
+			case ps[0]:
+				imp, dec := unsatWith(r.cond, ps[1]+" >= "+ps[0])
+				if !dec || !imp {
+					return false
+				}
+			default:
+				return false
+			}
+		}
+		return true
+	}
+	return false
 }
